@@ -37,6 +37,80 @@ theorem C04_unresolved_classes (dirs : List (Str × DirState)) (q : Str) :
     (refresh (scan dirs)).device q = none ↔ resolution q (scan dirs) = none := by
   rw [C01_resolve_iff]
 
+theorem qname_has_slash_eq (r : Ref) : cSlash ∈ r.qname ∧ cEq ∈ r.qname := by
+  simp [Ref.qname, Parser.qualifiedName]
+
+/-- a name that lacks the `/` or the `=` of a qualified name is defined by no Spec file -/
+theorem definers_of_unqualified (q : Str) (items : List ScanItem) (h : cSlash ∉ q ∨ cEq ∉ q) :
+    definers q items = [] := by
+  unfold definers
+  rw [List.filter_eq_nil_iff]
+  intro r _ hr
+  have hq : r.qname = q := by simpa using hr
+  obtain ⟨h1, h2⟩ := qname_has_slash_eq r
+  rw [hq] at h1 h2
+  rcases h with h | h
+  · exact h h1
+  · exact h h2
+
+/-- **C04 (names that cannot be device names are misses)**: whatever the directories hold, a requested name
+without `/` or without `=` - the empty name, a blank, a bare vendor - does not resolve in the refreshed cache -/
+theorem C04_unqualified_is_a_miss (dirs : List (Str × DirState)) (q : Str) (h : cSlash ∉ q ∨ cEq ∉ q) :
+    (refresh (scan dirs)).device q = none := by
+  rw [C04_unresolved_classes]
+  unfold resolution
+  rw [definers_of_unqualified q _ h]
+  rfl
+
+/-- **C04 (no silent success)**: with a miss in the request the outcome is never an `Apply`, and never an empty
+list of names -/
+theorem C04_miss_never_applies (device : Str → Option Ref) (req : List Str) (h : ∃ q ∈ req, device q = none) :
+    (∀ e, injectDevices device false req ≠ .apply e) ∧ injectDevices device false req ≠ .unresolved [] := by
+  rw [C04_unresolved device req h]
+  constructor
+  · intro e he
+    cases he
+  · intro he
+    injection he with he
+    obtain ⟨q, hq, hd⟩ := h
+    have : q ∈ unresolvedOf device req := by simp [unresolvedOf, List.mem_filter, hq, hd]
+    rw [he] at this
+    cases this
+
+/-- **C04 (every miss is named, as often as it was requested)** -/
+theorem C04_names_every_miss (device : Str → Option Ref) (req : List Str) (q : Str) :
+    (unresolvedOf device req).count q = if device q = none then req.count q else 0 := by
+  unfold unresolvedOf
+  induction req with
+  | nil => simp
+  | cons a rest ih =>
+    by_cases ha : (device a).isNone = true
+    · simp only [List.filter_cons, ha, if_true, List.count_cons, ih]
+      by_cases hq : device q = none
+      · simp [hq]
+      · simp only [hq, if_false]
+        have : ¬ (a == q) = true := by
+          intro hh
+          have : a = q := by simpa using hh
+          subst this
+          exact hq (by simpa using ha)
+        simp [this]
+    · simp only [List.filter_cons, ha, List.count_cons]
+      by_cases hq : device q = none
+      · simp only [hq, if_true]
+        have : ¬ (a == q) = true := by
+          intro hh
+          have : a = q := by simpa using hh
+          subst this
+          exact ha (by simp [hq])
+        simp [this, ih, hq]
+      · simp [hq, ih]
+
+example (dirs : List (Str × DirState)) : (refresh (scan dirs)).device [] = none :=
+  C04_unqualified_is_a_miss dirs [] (Or.inl (by simp))
+example (dirs : List (Str × DirState)) : (refresh (scan dirs)).device (lit " ") = none :=
+  C04_unqualified_is_a_miss dirs _ (Or.inl (by decide))
+
 /-! ### Non-vacuity -/
 example : injectDevices (fun q => if q = lit "v/c=x" then some refA else none) false
     [lit "nope", lit "v/c=x", lit "also bad", lit "nope"] = .unresolved [lit "nope", lit "also bad", lit "nope"] := by
